@@ -573,3 +573,57 @@ def rf32(run):
     judge('loop_invariant_p guard', f, g['c'][0], {}, hoist, True,
           'is not excluded from loop-invariant code motion: it would be executed a different number of times (or trap on a path that did not execute it)')
     run.min_instances(rule, 30)
+
+
+# ---------------------------------------------------------------------------------------------
+# RF36: every backward liveness scan gives a call the same effect
+# ---------------------------------------------------------------------------------------------
+
+def rf36(run):
+    rule = 'RF36'
+    run.rule(rule, 'sibling agreement of the backward liveness scans of mir-gen.c (functions that iterate both the output and the input '
+                   'variables of instructions and touch the call register sets): in each of them, under MIR_call_code_p (insn->code), '
+                   'the call-clobbered set call_used_hard_regs[MIR_T_UNDEF] is killed and the hard registers carrying the call\'s '
+                   'arguments (call_hard_reg_args) are made live')
+    gen = run.tu('gen')
+    from rf_proto import dominating_conditions
+    scans = []
+    for f in gen.func_list:
+        if f.body is None:
+            continue
+        it = set()
+        members = {}
+        for x in f.walk():
+            if x['k'] == 'CallExpr':
+                c = x.get('callee') or ''
+                if 'output_insn_var_iterator_next' in c:
+                    it.add('OUT')
+                if 'input_insn_var_iterator_next' in c:
+                    it.add('IN')
+            if x['k'] == 'MemberExpr' and x['n'] in ('call_used_hard_regs', 'call_hard_reg_args'):
+                members.setdefault(x['n'], []).append(x)
+        if it == {'IN', 'OUT'} and members:
+            scans.append((f, members))
+    if len(scans) < 4:
+        raise F.AnalysisBroken('only %d liveness scans found in mir-gen.c (4 confirmed by hand)' % len(scans))
+    for f, members in scans:
+        run.functions_analysed.add(('gen', f.name))
+        cfg = f.cfg
+        for m, role in (('call_used_hard_regs', 'kills the call-clobbered registers'), ('call_hard_reg_args', 'makes the argument registers live')):
+            sites = members.get(m, [])
+            good = []
+            for x in sites:
+                b = cfg.block_of(x)
+                if b is None:
+                    continue
+                conds = dominating_conditions(cfg, b)
+                if any('MIR_call_code_p(insn->code)' in c.replace(' (', '(') and t for c, t in conds):
+                    good.append(x)
+            ok = bool(good)
+            run.ob(rule, (f.name, m), ok, {'scan': f.name, 'set': m, 'uses under the call test': len(good), 'uses': len(sites)})
+            if not ok:
+                run.violation(rule, f, '%s in %s' % (m, f.name),
+                              '%s is a backward liveness scan like %s but nothing in it %s under MIR_call_code_p (insn->code): values kept '
+                              'in such registers across a call are treated wrongly by this pass'
+                              % (f.name, ', '.join(g.name for g, _ in scans if g is not f), role), line=f.line)
+    run.min_instances(rule, 8)
